@@ -153,10 +153,10 @@ def run(fn, a, out, limit):
         fn(a)
         return True
     except AssertionError as e:
-        if len(out) < limit or a.get("known"):
+        if len([o for o in out if not o.get("is_known")]) < limit or a.get("known"):
             out.append({"key": a.get("known") or f"{fn.__name__}:{a.get('m', '')}:{','.join(a.get('sig', a.get('s1', [])))}"
                                + (":" + ",".join(a["s2"]) if "s2" in a and not a.get("known") else ""),
-                        "what": str(e)[:300], "code": replay_code(fn.__name__, a)})
+                        "what": str(e)[:300], "code": replay_code(fn.__name__, a), "is_known": bool(a.get("known"))})
         return False
     except Exception as e:  # noqa: BLE001  (singular input for this signature: not a verdict)
         return None
